@@ -1,5 +1,5 @@
 """Subject / Observer / Subscription rules (C05: SUB.1-7, C10: RE.1-4) evaluated on every witness instantiation."""
-import itertools
+import itertools, re
 from facts import Node, strip_targs, Inconclusive
 from symex import Lin, Unknown, Ref, Closure, Sym, Exec, as_lin
 from evdom import EvDomain, Ev, run_paths, _flatten, loop_conds, loop_visits
@@ -217,6 +217,7 @@ class SubjectAnalysis:
                 else: self.add('SUB.4', None, f'{short}::notify: parameter {i} has the type of the pack element', notify.shortloc(), f'pack element `{w_}`, parameter `{g_}`')
         # RE.2: the round owns the observer it calls
         for c in calls: self._ownership(S, short, c)
+        self._stable_storage(S, short, f, deliver)
         # path rules: SUB.2 / SUB.6 / RE.1 / RE.4 / SUB.1
         order_seen = set()
         for id_active, obs_valid in itertools.product([True, False], [True, False]):
@@ -317,6 +318,40 @@ class SubjectAnalysis:
                     return False
                 depth -= 1
         return False
+
+    def _stable_storage(self, S, short, f, deliver):
+        """RE.5: what the delivery loop reads out of m_observers' own storage (through an address / iterator taken before the callbacks
+        ran) is still there: a callback may erase *other* entries, which leaves the remaining ones in place only in a node-based
+        container"""
+        cls = self.facts.cls(S) or {}
+        of = next((x for x in cls.get('fields', []) if x['name'] == OBS), None)
+        if of is None: return
+        ct = of['ctype']
+        m = re.match(r'std::(?:__cxx11::)?(\w+)<(.*)', ct)
+        kind = m.group(1) if m else ''
+        elem = _split_targs(ct[ct.index('<') + 1:ct.rindex('>')])[0].strip() if '<' in ct else ''
+        ename = elem.split('::')[-1]
+        if not ename: return
+        body = deliver.n('body') or deliver
+        def into_storage(x):
+            t = (x.type or '').replace('const ', '').strip()
+            return (t.endswith('*') and t.rstrip('* ').split('::')[-1] == ename) or ('_iterator<' in t and ename in t) or ('iterator' in t.lower() and ename in t and not t.endswith('*') and 'std::' in t)
+        uses = []
+        for x in body.walk():
+            if x.k == 'member' and x.field and x.arrow and x.n('base') is not None and into_storage(x.n('base')): uses.append(x)
+            elif x.k == 'unop' and x.op == '*' and x.n('sub') is not None and into_storage(x.n('sub')): uses.append(x)
+            elif x.k == 'call' and x.ck == 'op' and x.op in ('*', '->') and x.ns('args') and x.ns('args')[0] is not None and into_storage(x.ns('args')[0]): uses.append(x)
+        inst = f'{short}::notify: entries of m_observers read during the delivery stay where they were'
+        if not uses:
+            self.add('RE.5', True, f'{short}::notify: the delivery loop reads nothing out of m_observers\' own storage (the snapshot holds copies)', deliver.shortloc(), key='RE.5|stable'); return
+        if kind in ('forward_list', 'list', 'set', 'map', 'multiset', 'multimap', 'unordered_map', 'unordered_set'):
+            self.add('RE.5', True, inst + f' (std::{kind}: erasing one entry leaves the others in place)', uses[0].shortloc(), key='RE.5|stable')
+        elif kind in ('vector', 'deque', 'basic_string'):
+            self.add('RE.5', False, inst, uses[0].shortloc(),
+                     f'`{uses[0].text()[:40]}` reads an entry of m_observers through an address taken before the callbacks ran, and m_observers is a std::{kind}: a callback that removes (or adds) another observer '
+                     f'shifts the entries, the address then denotes a neighbour or a destroyed slot while its id still passes the id check — one observer is called twice, another not at all', key='RE.5|stable')
+        else:
+            self.add('RE.5', None, inst, uses[0].shortloc(), f'whether `{ct[:50]}` keeps the other entries in place when one is erased is not known')
 
     def _ownership(self, S, short, c):
         """RE.2: trace the object the observer call is made on back to its owner"""
@@ -573,6 +608,7 @@ RULE_TEXT = {
     'SH.5': 'hasSubscriptions() is exactly !m_observers.empty()',
     'RE.1': 'the delivery loop iterates a snapshot that is local to this notify() call (not m_observers, not a member buffer shared by nested rounds)',
     'RE.2': 'the snapshot entry owns the observer (std::shared_ptr copy): the object whose member function is running, and on which isValid() is called afterwards, cannot be destroyed by a callback',
+    'RE.5': 'entries of m_observers that the delivery loop reads through an address / iterator taken before the callbacks ran are not displaced by a callback that removes or adds another observer (node-based container, or the snapshot holds copies)',
     'RE.4': 'the snapshot is complete before the first callback: observers added during a round are first invoked in the next round',
 }
 
